@@ -31,7 +31,11 @@ NAMESPACES = {"A": "lambda v: v * 2 + 1", "B": "lambda v: v * v", "C": None}
 # shared by all its builds): using an object for one design must not change what it does for the next
 ENC = list(range(len(FORMULAS), len(FORMULAS) + 4))
 FORMULAS = FORMULAS + ["y ~ C(g, enc) + x", "y ~ C(f, enc) + C(g, senc)", "y ~ 0 + C(h, enc)", "y ~ x + C(g, senc)"]
-OUTSIDE = [TR] + ENC
+# a formula reading a numpy array (spline knots, not in ascending order) from the caller's namespace: the array
+# is the caller's object and must come back unchanged
+KN = len(FORMULAS)
+FORMULAS = FORMULAS + ["y ~ bs(x, knots=kn) + f"]
+OUTSIDE = [TR] + ENC + [KN]
 
 
 def _pool(rng):
@@ -90,6 +94,13 @@ def gen(rng, tier):
             if rng.random() < 0.4:
                 ops.append(["common", len([o for o in ops if o[0] == "build"]) - 1, rng.randrange(4)])
         cases.append({"frames": _pool(rng), "ops": ops, "kind": "shared-encoder"})
+    for i in range(100 if tier == "thorough" else 12):
+        ops = [["build", KN, rng.choice([0, 3])]]
+        if rng.random() < 0.5:
+            ops.append(["common", 0, rng.randrange(4)])
+        if rng.random() < 0.5:
+            ops.append(["build", KN, 0])
+        cases.append({"frames": _pool(rng), "ops": ops, "kind": "namespace-array"})
     # a share of short histories is additionally compared with a brand-new interpreter per operation
     for i in range(60 if tier == "thorough" else 12):
         ops = [["build", rng.choice([7, 8, 1, 4, 6]), 0], ["build", rng.choice([7, 8, 1, 4, 6]), 3],
@@ -165,6 +176,7 @@ def _execute(c, fresh_each=False):
     formulae.config["EVAL_UNSEEN_CATEGORIES"] = "error"
     from formulae.categorical import Sum, Treatment
     encoders = {"enc": Treatment(), "senc": Sum()}
+    arrays = []
     designs, outs, trained, views = [], [], [], []
     problems = []
     from formulae.environment import Environment
@@ -178,6 +190,12 @@ def _execute(c, fresh_each=False):
                         ns = {"tr": eval(NAMESPACES[o[3]])}
                     if o[1] in ENC:
                         ns = dict(ns or {}, **encoders)
+                    if o[1] == KN:
+                        xs = sorted(float(v) for v in dfs[o[2]]["x"])
+                        lo, hi = xs[0], xs[-1]
+                        kn = np.array([lo + (hi - lo) * q for q in (0.75, 0.25, 0.5)])   # descending then up
+                        arrays.append((kn, kn.copy()))
+                        ns = dict(ns or {}, kn=kn)
                     d = design_matrices(FORMULAS[o[1]], dfs[o[2]], env=shared, extra_namespace=ns)
                     designs.append(d)
                     trained.append([None if p is None else np.array(p.design_matrix, copy=True)
@@ -228,6 +246,9 @@ def _execute(c, fresh_each=False):
             for name, p, m in zip(("response", "common", "group"), (d.response, d.common, d.group), t):
                 if p is not None and not np.array_equal(np.asarray(p.design_matrix), m, equal_nan=True):
                     problems.append(f"the {name} training matrix of design #{i} changed after it was built")
+        for kn, before in arrays:
+            if not np.array_equal(kn, before):
+                problems.append(f"a numpy array of the caller's namespace was modified: {before.tolist()} -> {kn.tolist()}")
         # what a design answers through its public accessors (term names, slices, common[name], group[name],
         # labels, levels) is the same at the end of the history as when it was built
         for i, (d, v) in enumerate(zip(designs, views)):
